@@ -443,6 +443,9 @@ def gen_procedures(rng, tier, seed):
             case['situation'] += '+cancel'
     else:
         case['situation'] = rng.choice(['live', 'live', 'unknown_handle', 'peer_vanishes'])
+        # role of the commanding host on that link, and the peer controller's capability set (a random subset of its LE features)
+        case['as_peripheral'] = rng.random() < 0.4
+        case['peer_feature_mask'] = rng.choice([None, None, rng.getrandbits(64), rng.getrandbits(64) & rng.getrandbits(64), 0])
     return case
 
 
@@ -467,8 +470,16 @@ def run_procedures(case):
                 handle = conn.handle
         else:
             if proc in ('disconnect', 'le_read_remote_features', 'le_enable_encryption') and situation != 'unknown_handle':
-                cc, cp = world.connect_le(0, 1, own_address_type=hci.OwnAddressType.PUBLIC if case['own_public'] else None)
-                handle = cc.handle
+                if case.get('peer_feature_mask') is not None:
+                    n1.controller.le_features = hci.LeFeatureMask(int(n1.controller.le_features) & case['peer_feature_mask'])
+                    sim.probe('peer_controller_with_reduced_feature_set')
+                if case.get('as_peripheral'):
+                    cc, cp = world.connect_le(1, 0, own_address_type=hci.OwnAddressType.PUBLIC if case['own_public'] else None)
+                    handle = cp.handle
+                    sim.probe('commanding_host_is_peripheral')
+                else:
+                    cc, cp = world.connect_le(0, 1, own_address_type=hci.OwnAddressType.PUBLIC if case['own_public'] else None)
+                    handle = cc.handle
         mon = Monitor(sim, world)
 
         def vanish():
